@@ -88,7 +88,11 @@ def call(c):
                 out = djs_maskinterp(y, m, xval=x, axis=c.get('axis'), const=bool(c.get('const')))
             if out.shape != shape:
                 return {'err': 'BadResult', 'msg': str(out.shape)}
-            return {'ok': [float(v) for v in out.ravel()], 'input_untouched': bool(np.array_equal(y, y0))}
+            nd = len(shape)
+            ax = nd - 1 - (c.get('axis') or 0)
+            idx = np.arange(y.size).reshape(shape)
+            return {'ok': [float(v) for v in out.ravel()], 'input_untouched': bool(np.array_equal(y, y0)),
+                    'np_lines': np.moveaxis(idx, ax, -1).reshape(-1, shape[ax]).tolist()}
         if f == 'aesth':
             flux = np.array(c['flux'], dtype='d')
             iv = np.array(c['invvar'], dtype='d')
